@@ -109,6 +109,7 @@ class Store:
         self.plan: dict[str, Any] | None = None
         self.variants: dict[str, tuple[bytes, str | None]] = {}
         self.corrupted_served: set[str] = set()
+        self.preserving: set[str] = set()
         self.origin = origin_mod.Origin(self.route, name="S").start()
         self.base = self.origin.base
         self.seq = 0
@@ -146,6 +147,7 @@ class Store:
             self.order.clear()
             self.variants.clear()
             self.corrupted_served.clear()
+            self.preserving.clear()
             self.plan = plan
         self.origin.clear()
 
@@ -176,8 +178,17 @@ class Store:
             with self.lock:
                 if oid not in self.variants:
                     self.variants[oid] = corrupt(self, oid, self.plan or {})
+                    # a change confined to bytes the content coding ignores (gzip header OS byte, trailer) leaves
+                    # the decoded payload - what the digest covers - intact: that is not a corrupted payload
+                    try:
+                        same = _decode_lenient(*self.variants[oid]) == _decode(ent["data"], ent["ce"])
+                    except Exception:
+                        same = False
+                    if same:
+                        self.preserving.add(oid)
                 data, ce = self.variants[oid]
-                self.corrupted_served.add(oid)
+                if oid not in self.preserving:
+                    self.corrupted_served.add(oid)
         return self.origin_mod.serve_object(req, {"body": data, "ce": ce})
 
     def close(self) -> None:
@@ -193,6 +204,19 @@ def _decode(data: bytes, ce: str | None) -> bytes:
         return zstandard.ZstdDecompressor().decompressobj().decompress(data)
     if ce == "gzip":
         return zlib.decompress(data, 31)
+    return data
+
+
+def _decode_lenient(data: bytes, ce: str | None) -> bytes:
+    """Whatever a streaming decoder yields before it would complain (tolerates a cut trailer)."""
+    import zlib
+
+    import zstandard
+
+    if ce == "zstd":
+        return zstandard.ZstdDecompressor().decompressobj().decompress(data)
+    if ce == "gzip":
+        return zlib.decompressobj(31).decompress(data)
     return data
 
 
@@ -623,6 +647,7 @@ def execute(env: Env, program: dict[str, Any], spec: dict[str, Any], *, per_call
         "client_puts": [o for o in st.order if st.objects[o]["kind"] == "c" and st.objects[o]["data"] is not None],
         "resolved": list(env.resolved),
         "corrupted_served": set(st.corrupted_served),
+        "preserving": set(st.preserving),
         "origin_requests": len(st.origin.snapshot()),
         "range_requests": sum(1 for e in st.origin.snapshot() if e["headers"].get("range")),
     }
@@ -860,6 +885,8 @@ def run_corruption(job: dict[str, Any]) -> dict[str, Any]:
                                 "corrupted_objects_served": sorted(served),
                                 "traces": [t[-3:] for t in got["traces"]][:4],
                             }
+                            if got["preserving"]:
+                                chk.skip("K_change_confined_to_bytes_the_content_coding_ignores", len(got["preserving"]))
                             if not served:
                                 chk.skip("K_corrupted_object_never_fetched")
                                 continue
